@@ -5,7 +5,8 @@
 name=$1; tier=${2:-quick}
 d=/verif/seeded/$name
 prop=$(python3 -c "import json;print(json.load(open('$d/meta.json'))['property'])")
-cd /repo || exit 2
+repo=${VERIF_REPO:-/repo}
+cd $repo || exit 2
 if [ -n "$(git status --porcelain --untracked-files=no)" ]; then echo "/repo has uncommitted changes"; exit 2; fi
 git apply "$d/patch.diff" || { echo "patch does not apply"; exit 2; }
 /verif/run_check.sh "$prop" "$tier" > /tmp/seeded_$name.log 2>&1
